@@ -54,9 +54,17 @@ def check(run, focus=FOCUS, modules=MODULES, suffix=SUFFIX):
         st = statictrans.translate_all()
         statictrans.emit_lean(st, os.path.join(common.GEN, "A64Static.lean"))
         modules.append("DynasmVerif.Generated.A64Static")
-        run.coverage["trusted_base"] += [f"lib/statictrans.py (text of 13 literal-operand arms + static_range_check -> Lean, {len(st)} command groups proved equal to Model/A64Enc)"]
+        run.coverage["trusted_base"] += [f"lib/statictrans.py (text of 15 literal-operand arms + static_range_check -> Lean, {len(st)} command groups proved equal to Model/A64Enc)"]
     except statictrans.Untranslatable as ex:
         static_msg = f"the literal-operand arms of the aarch64 compiler can no longer be translated (lib/statictrans.py): {ex}"
+    import rvstatictrans
+    try:
+        rst = rvstatictrans.translate_all()
+        rvstatictrans.emit_lean(rst, os.path.join(common.GEN, "RvStatic.lean"))
+        modules.append("DynasmVerif.Generated.RvStatic")
+        run.coverage["trusted_base"] += [f"lib/rvstatictrans.py (text of the riscv literal branches, static_range_check and gather_fields -> Lean, {len(rst)} (check, fields) groups proved equal to Model/RvEnc)"]
+    except rvstatictrans.Untranslatable as ex:
+        static_msg = (static_msg + "; " if static_msg else "") + f"the literal-operand branches of the riscv compiler can no longer be translated (lib/rvstatictrans.py): {ex}"
     # an obligation may be left out only for the structural reason known on the pinned tree (an operand spread over two run-time words: tbz/tbnz);
     # one that can no longer be translated or instantiated is a theorem that is no longer stated
     unstated = []
